@@ -122,6 +122,9 @@ def parse_script(text):
             continue
         # top-level line of the object
         t, r = rest, []
+        if kind == "acl":
+            # `line N` only addresses the position; this family compares ACLs as sets of lines
+            t = re.sub(r"^line \d+ ", "", t)
         if kind == "tgm":
             w = rest.split()
             if w[0] == "default-group":
@@ -175,6 +178,8 @@ class Replica:
             o = self.objs.get(e["k"])
             ln = {"m": "", "t": e["tx"], "r": list(e["r"])}
             if o is None or ln not in o["lines"]:
+                return
+            if o["lines"] == [ln] and self.referenced(e["k"]):
                 return
             o["lines"].remove(ln)
             if not o["lines"]:
